@@ -1,1 +1,50 @@
-fn main() {}
+//! jbkv-reader: the reader child of the fault enumerator (DESIGN 2.4).
+//! No catch_unwind, default panic behaviour: a panic / abort / signal kills this process and
+//! the parent attributes the death to the job in flight.
+//! Protocol: one JSON `Job` per stdin line -> one line `OK <FDump json>` on stdout.
+
+use jbkv::fdump::{run_job, Job};
+use std::io::{BufRead, Write};
+use std::sync::atomic::{AtomicU64, Ordering};
+
+static STALL: AtomicU64 = AtomicU64::new(0);
+static LAST: AtomicU64 = AtomicU64::new(u64::MAX);
+
+fn main() {
+    // sound non-termination evidence (DESIGN 2.6): the decode loop publishes the same
+    // length 1000 times in a row while data is still expected => it can never advance.
+    jubako::verif::set_hook(Box::new(|site, a, b| {
+        if site == "dec.pre_publish" {
+            if a < b && LAST.swap(a, Ordering::Relaxed) == a {
+                if STALL.fetch_add(1, Ordering::Relaxed) > 1000 {
+                    println!("NOPROGRESS decoded={a} total={b}");
+                    let _ = std::io::stdout().flush();
+                    std::process::exit(3);
+                }
+            } else {
+                STALL.store(0, Ordering::Relaxed);
+            }
+        }
+    }));
+    let stdin = std::io::stdin();
+    let stdout = std::io::stdout();
+    for line in stdin.lock().lines() {
+        let Ok(line) = line else { break };
+        if line.trim().is_empty() {
+            continue;
+        }
+        let job: Job = match serde_json::from_str(&line) {
+            Ok(j) => j,
+            Err(e) => {
+                println!("BADJOB {e}");
+                continue;
+            }
+        };
+        STALL.store(0, Ordering::Relaxed);
+        LAST.store(u64::MAX, Ordering::Relaxed);
+        let d = run_job(&job);
+        let mut out = stdout.lock();
+        let _ = writeln!(out, "OK {}", serde_json::to_string(&d).unwrap());
+        let _ = out.flush();
+    }
+}
